@@ -48,6 +48,11 @@ func init() {
 			{ID: "C14.R7", Min: 1, Desc: "a re-dialled connection can be registered", Fn: c14ConnName},
 			{ID: "C14.R9", Min: 3, Desc: "the frame reader re-arms or terminates its connection on every path (C11.R3): a connection that stops reading swallows every later frame", Fn: c11Rearm},
 			{ID: "C14.R10", Min: 1, Desc: "every send attempt writes the complete frame", Fn: c14WholeFrame},
+			{ID: "C14.R11", Min: 1, Desc: "no error of the transport layer is dropped implicitly", Fn: func(p *Program, r *Report) {
+				p.checkNoImplicitDrop(r, "the transport (internal/remoting)", "a failed write, deadline or close that goes unnoticed leaves the sender believing the frame was delivered, or a connection half-open", func(rel string) bool {
+					return rel == "internal/remoting" || rel == "internal/remoting/serialize"
+				})
+			}},
 			{ID: "C14.R8", Min: 1, Desc: "retry state is per mailbox, never shared between peers", Fn: c14OwnBackoff},
 		},
 	})
@@ -59,6 +64,11 @@ func init() {
 			{ID: "C15.R7", Min: 5, Desc: "pooled codec objects start clean: an encode failure of one message cannot poison the next remote operation (C12.R9)", Fn: c12Pools},
 			{ID: "C15.R6", Min: 4, Desc: "watcher identity includes the address", Fn: c15WatcherIdentity},
 			{ID: "C15.R9", Min: 4, Desc: "a remote operation whose first attempt fails is retried within the full budget: bounded retry, counter reset on every return (C14.R4)", Fn: c14Retry},
+			{ID: "C15.R10", Min: 1, Desc: "no error of the codec layer is dropped implicitly (C12.R10)", Fn: func(p *Program, r *Report) {
+				p.checkNoImplicitDrop(r, "the codec (messages, envelope and cluster serialisers, registered readers/writers)", "an encoding error that is not propagated yields a truncated or empty frame that is sent as if it were complete; a decoding error that is not propagated hands on a half-filled message", func(rel string) bool {
+					return rel == "" || rel == "internal/messages" || rel == "internal/remoting/serialize" || rel == "internal/cluster"
+				})
+			}},
 			{ID: "C15.R8", Min: 1, Desc: "an error carried by a message is reconstructed for every code other than the writer's no-error value", Fn: c15ErrorSentinel},
 			{ID: "C15.R5", Min: 2, Desc: "optional nested payloads are encodable without a codec", Fn: c15OptionalPayload},
 			{ID: "C15.R1", Min: 28, Desc: "wire-representable fields", Fn: c15Representable},
